@@ -9,7 +9,7 @@ PROPERTY = 'C06'
 RULE = ('cases are context tables (plus Hypothesis tables wider than a machine word: 1-6 x 60-140 and transposed) (exhaustive n*m <= 12 quick / <= 16 + 4x5, 5x4 + multisets thorough; Hypothesis '
         'families beyond) whose object labels are a seed-derived / drawn permutation, so label order differs from '
         'positional order. Oracle on three lattices per table (computed; reloaded by fromdict(todict()); reloaded '
-        'with raw=True from a permuted serialisation): iteration sorted by (len(extent), object positions), '
+        'with raw=True from a permuted serialisation, as dict and as JSON text): iteration sorted by (len(extent), object positions), '
         'index = position, dindex = position in (-len, positions) order, infimum is first and least, supremum is '
         'last and greatest, atoms = upper covers of the infimum, every upper_neighbors tuple sorted shortlex and '
         'every lower_neighbors tuple sorted longlex. Non-trivial: two same-size extents whose label order and '
@@ -111,6 +111,10 @@ def check_one(case, ctx, deep):
         pd = permuted_dict(d, rnd)
         loaded = ctx.call('fromdict(raw)', plain, concepts.Context.fromdict, pd, raw=True)
         check_lattice(loaded.lattice, 'fromdict(raw)/', case, ref, maps, ctx, plain)
+        import io
+        import json
+        loaded = ctx.call('fromjson(raw)', plain, concepts.Context.fromjson, io.StringIO(json.dumps(pd)), raw=True)
+        check_lattice(loaded.lattice, 'fromjson(raw)/', case, ref, maps, ctx, plain)
 
 
 def plan(tier, seed):
